@@ -296,6 +296,67 @@ func c20Exec(tk *c20Task, sc *c20Script, st c20Step, shared [][]byte, annexb [][
 			h.Write(w.dev.buf)
 		}
 		out = h.Sum(nil)[:8]
+	case "seiBuild":
+		// SEI messages of every typed kind, built from this step's own generated payloads: every message's payload is
+		// taken first, then all messages are written (each write is an I/O point, so other tasks run in between), and
+		// the payloads and texts taken before are looked at again afterwards: what a message gave out must not change
+		// because somebody else serialised a message of the same kind meanwhile
+		x := uint32(st.arg)*2654435761 + 12345
+		gen := func(n int) []byte {
+			b := make([]byte, n)
+			for i := range b {
+				x = x*1664525 + 1013904223
+				b[i] = byte(x >> 24)
+			}
+			return b
+		}
+		codec := sei.HEVC
+		plan := []struct {
+			typ uint
+			n   int
+		}{{144, 4}, {137, 24}, {5, 16 + st.arg%9}, {4, 3 + st.arg%11}, {136, 1 + st.arg%13}, {6, 1 + st.arg%5}, {144, 4}}
+		if st.arg&1 != 0 {
+			codec = sei.AVC
+			plan = []struct {
+				typ uint
+				n   int
+			}{{1, 1 + st.arg%9}, {5, 16 + st.arg%9}, {4, 3 + st.arg%11}, {6, 1 + st.arg%5}, {5, 16}}
+		}
+		var msgs []sei.SEIMessage
+		h := sha256.New()
+		for _, pl := range plan {
+			m, err := func() (m sei.SEIMessage, err error) {
+				defer func() {
+					if rec := recover(); rec != nil {
+						m, err = nil, fmt.Errorf("panic:%v", rec)
+					}
+				}()
+				return sei.DecodeSEIMessage(sei.NewSEIData(pl.typ, gen(pl.n)), codec)
+			}()
+			if err != nil || m == nil {
+				fmt.Fprintf(h, "dec%d:%v/", pl.typ, err)
+				continue
+			}
+			msgs = append(msgs, m)
+		}
+		var kept [][]byte
+		var texts []string
+		for _, m := range msgs {
+			kept = append(kept, m.Payload())
+			texts = append(texts, m.String())
+			fmt.Fprintf(h, "%d/%d/", m.Type(), m.Size())
+		}
+		w := &c20FailWriter{dev: &c20Dev{tk: tk}, failAt: (st.arg / 16) % 3} // 0 = healthy
+		werr := sei.WriteSEIMessages(w, msgs)
+		fmt.Fprintf(h, "%v/", werr)
+		h.Write(w.dev.buf)
+		for i, m := range msgs {
+			h.Write(kept[i])
+			h.Write([]byte(texts[i]))
+			h.Write(m.Payload())
+			h.Write([]byte(m.String()))
+		}
+		out = h.Sum(nil)[:8]
 	case "fault":
 		// a stream that ends inside a box header or body: the decode must fail the same way for everyone
 		var x []byte
@@ -539,10 +600,13 @@ func c20DrawScript(t *sim.Tape, nInputs int, ins []c20Input) c20Script {
 				sc.steps = append(sc.steps, c20Step{"info", t.Draw(3)})
 			}
 		case 11:
-			if t.Bool() {
-				sc.steps = append(sc.steps, c20Step{"seiWrite", t.Draw(64)})
-			} else {
+			switch t.Draw(3) {
+			case 0:
 				sc.steps = append(sc.steps, c20Step{"fault", t.Draw(20)})
+			case 1:
+				sc.steps = append(sc.steps, c20Step{"seiWrite", t.Draw(64)})
+			default:
+				sc.steps = append(sc.steps, c20Step{"seiBuild", t.Draw(256)})
 			}
 		case 0, 1:
 			sc.steps = append(sc.steps, c20Step{"info", t.Draw(3)})
